@@ -18,7 +18,9 @@ PROPERTY = "C16"
 LEVEL = "exploration"
 RULE = ("Hypothesis draws closed-shell templates with <= 64 occupied x virtual pairs (symmetric ones with degenerate states included, "
         "undistorted or distorted by up to 0.1 A) x method x CIS / RPA x n_states 1..min(nov, 10) x tolerance 1e-5..1e-8 x layout {single, "
-        "homogeneous batch, mixed batch} x {fresh, amplitudes reused from a neighbouring geometry}. non-trivial = n_states >= 2 or a "
+        "homogeneous batch (every member judged, and compared with the member alone), mixed batch} x {fresh, amplitudes reused from a "
+        "neighbouring geometry} x {no window, orbital window (n below HOMO, m above LUMO)} x {subspace cap = nov, cap lowered to 10-24 "
+        "vectors as under memory pressure so that the Davidson subspace is collapsed and restarted}. non-trivial = n_states >= 2 or a "
         "degenerate spectrum or reuse; distinct = case hash")
 ASSUMPTIONS = ["dense reference built from molecule.w / parameters / e_mo / molecular_orbitals of the same call (the matrix the property defines)",
                "the code may return more roots than requested (it completes degenerate shells): all k >= n returned roots are compared with the k lowest reference eigenvalues",
@@ -27,8 +29,9 @@ ASSUMPTIONS = ["dense reference built from molecule.w / parameters / e_mo / mole
 IDX = [(0, 0), (1, 0), (1, 1), (2, 0), (2, 1), (2, 2), (3, 0), (3, 1), (3, 2), (3, 3)]
 
 
-def dense(mol, b=0):
-    """dense A, B of molecule b of a (possibly heterogeneous) run -- real atoms only"""
+def dense(mol, b=0, window=None):
+    """dense A, B of molecule b of a (possibly heterogeneous) run -- real atoms only; window = (n occupied below the HOMO incl.,
+    m virtual from the LUMO up) restricts the excitation space as excited_states['orbital_window'] does"""
     sp = tonp(mol.species[b])
     nat = int((sp > 0).sum())
     nao = 4 * nat
@@ -71,13 +74,38 @@ def dense(mol, b=0):
     C = tonp(mol.molecular_orbitals[b])[:norb, :norb]
     e = tonp(mol.e_mo[b])[:norb]
     Co, Cv = C[:, :nocc], C[:, nocc:norb]
+    eo, evv = e[:nocc], e[nocc:norb]
+    if window is not None:
+        Co, Cv = Co[:, nocc - window[0]:], Cv[:, : window[1]]
+        eo, evv = eo[nocc - window[0]:], evv[: window[1]]
     ovov = np.einsum("mi,na,lj,sb,mnls->iajb", Co, Cv, Co, Cv, Gp, optimize=True)
     oovv = np.einsum("mi,nj,la,sb,mnls->ijab", Co, Co, Cv, Cv, Gp, optimize=True)
-    nv = norb - nocc
-    nov = nocc * nv
-    A = (2 * ovov - oovv.transpose(0, 2, 1, 3)).reshape(nov, nov) + np.diag((e[None, nocc:] - e[:nocc, None]).reshape(-1))
+    nov = Co.shape[1] * Cv.shape[1]
+    A = (2 * ovov - oovv.transpose(0, 2, 1, 3)).reshape(nov, nov) + np.diag((evv[None, :] - eo[:, None]).reshape(-1))
     B = (2 * ovov - ovov.transpose(0, 3, 2, 1)).reshape(nov, nov)
     return A, B, nov
+
+
+def _set_cap(cap):
+    """emulates little free memory: getMaxSubspacesize (imported by name into three modules) returns min(nov, cap)"""
+    if not cap:
+        return lambda: None
+    import seqm.seqm_functions.rcis_batch as RB
+    import seqm.seqm_functions.rcis_new as RN
+    import seqm.seqm_functions.rpa as RP
+
+    saved = [(m, m.getMaxSubspacesize) for m in (RB, RN, RP)]
+
+    def capped(dtype, device, nov, nmol=1, num_big_matrices=2):
+        return min(nov, cap)
+
+    for m, _ in saved:
+        m.getMaxSubspacesize = capped
+
+    def restore():
+        for m, f in saved:
+            m.getMaxSubspacesize = f
+    return restore
 
 
 @st.composite
@@ -94,6 +122,18 @@ def _case(draw):
     case = {"mol": mol, "exm": draw(st.sampled_from(["cis", "cis", "rpa"])), "n": draw(st.integers(1, max(1, min(nov - 1, 10)))),
             "tol": 10.0 ** (-draw(st.integers(5, 8))), "layout": draw(st.sampled_from(["single", "single", "homog", "mixed"])),
             "reuse": draw(st.integers(0, 2)) == 0, "wseed": draw(st.integers(0, 10 ** 5))}
+    nocc = M.n_electrons(tpl) // 2
+    nvirt = M.n_orbitals(tpl) - nocc
+    if case["layout"] != "mixed" and not case["reuse"] and draw(st.integers(0, 3)) == 0:
+        # orbital window (n below the HOMO, m above the LUMO); needs uniform nocc/norb, i.e. single or homogeneous layout
+        wb, wa = draw(st.integers(1, nocc)), draw(st.integers(1, nvirt))
+        if wb * wa >= 2:
+            case["window"] = [wb, wa]
+            case["n"] = max(1, min(case["n"], wb * wa - 1))
+    if case["exm"] == "cis" and case["layout"] != "mixed" and "window" not in case and draw(st.integers(0, 3)) == 0:
+        # memory pressure: the Davidson subspace cap (normally derived from free memory and equal to nov for small molecules) is
+        # lowered so that the subspace has to be collapsed and restarted ("subspace history")
+        case["cap"] = max(3 * case["n"] + 4, draw(st.sampled_from([10, 12, 16, 24])))
     if case["layout"] == "mixed":
         case["reuse"] = False       # amplitude reuse in a heterogeneous batch raises NotImplementedError (explicitly unsupported)
         pool2 = [t for t in pool if M.ALL[t]["Z"] != M.ALL[tpl]["Z"] and M.n_ov(t) >= case["n"] + 1]
@@ -127,6 +167,20 @@ class Eigenpairs(SubCheck):
         b = 1 if (case["layout"] == "mixed" and case["wseed"] % 2) else 0
         Sx, X = pad_batch(rows)
         ex = {"excited_states": {"method": exm, "n_states": n, "tolerance": tol}}
+        window = case.get("window")
+        if window:
+            ex["excited_states"]["orbital_window"] = tuple(window)
+            labels.append("window")
+        restore = _set_cap(case.get("cap"))
+        if case.get("cap"):
+            labels.append("subspace_cap")
+        try:
+            return self._judge(case, rows, b, Sx, X, ex, labels, window)
+        finally:
+            restore()
+
+    def _judge(self, case, rows, b, Sx, X, ex, labels, window):
+        method, exm, n, tol = case["mol"]["method"], case["exm"], case["n"], case["tol"]
         try:
             if case["reuse"]:
                 # amplitudes (and density, orbitals) of a neighbouring geometry are carried over exactly the way an MD step carries
@@ -150,6 +204,9 @@ class Eigenpairs(SubCheck):
                 return Outcome.inconclusive("rpa_unstable_reference", labels)
             if "invalid for input of size" in msg and len(rows) > 1:
                 return Outcome.inconclusive("recorded_c05_padded_homogeneous_crash", labels)
+            if case.get("cap") and ("Maximum iterations reached" in msg or "Insufficient memory" in msg):
+                # with the artificially small subspace cap the solver may stagnate; it says so loudly -- an honest failure signal
+                return Outcome.inconclusive("capped_subspace_did_not_converge", labels)
             if exm == "rpa" and case["reuse"] and "expand(" in msg:
                 # recorded finding: rpa() assigns the stored [2, nmol, nroots, nov] (X, Y) amplitudes directly to its [nmol, n, nov]
                 # trial-vector array; every second RPA call on a molecule -- i.e. every excited-state MD run with RPA -- dies
@@ -157,7 +214,38 @@ class Eigenpairs(SubCheck):
             return Outcome.fail(f"exception:{type(e).__name__}", f"{type(e).__name__}: {msg[:200]}", labels)
         if notconv(r).any():
             return Outcome.inconclusive("scf_not_converged", labels)
-        A, B, nov = dense(r.mol, b)
+        if case["layout"] == "homog":
+            # every member of a homogeneous batch is judged (a first version looked at member 0 only and missed a seeded change that
+            # corrupts the LATER members when an earlier one converges first); member 1 sits at a generic geometry
+            first = None
+            for bb in range(len(rows)):
+                out = self._judge_member(case, r, bb, labels + ["member:%d" % bb], window, symmetric=(bb == 0 and case["mol"]["amp"] == 0))
+                if out["status"] == "fail":
+                    return out
+                first = first or out
+            if not case["reuse"]:
+                # batch composition: each member alone must give the member's energies in the batch
+                for bb in range(len(rows)):
+                    try:
+                        ra = run_sp(Sx[bb:bb + 1], X[bb:bb + 1], method=method, eps=1e-10, extra={k_: dict(v) for k_, v in ex.items()})
+                    except Exception:
+                        continue
+                    ga, gb = tonp(ra.mol.cis_energies[0]), tonp(r.mol.cis_energies[bb])
+                    kk = min(len(ga), len(gb), n)
+                    d = float(np.abs(ga[:kk] - gb[:kk]).max())
+                    if d > 20 * tol + 1e-7:
+                        return Outcome.fail("batch_member_energies_differ_from_alone", f"{exm} n_states={n}, member {bb} of a homogeneous batch of {len(rows)} ({case['mol']['tpl']}): in the batch {gb[:kk].round(5).tolist()}, alone {ga[:kk].round(5).tolist()}",
+                                            labels, True, dev_alone=d)
+            return first
+        return self._judge_member(case, r, b, labels, window, symmetric=(case["mol"]["amp"] == 0))
+
+    def _judge_member(self, case, r, b, labels, window, symmetric):
+        labels = list(labels)
+        exm, n, tol = case["exm"], case["n"], case["tol"]
+        rows = [None] * int(r.mol.species.shape[0])
+        A, B, nov = dense(r.mol, b, window)
+        if case.get("cap"):
+            labels.append("restart_needed:%s" % (case["cap"] < nov))
         evA = np.linalg.eigvalsh(A)
         if exm == "cis":
             ev = evA
@@ -175,6 +263,8 @@ class Eigenpairs(SubCheck):
         bound = 20 * tol + 1e-7
         if np.any(np.diff(got) < -1e-10):
             return Outcome.fail("roots_not_ascending", f"returned energies {got.round(6).tolist()}", labels, nontrivial)
+        if k > len(ev):
+            return Outcome.fail("more_roots_than_the_excitation_space_has", f"{k} energies returned, the (windowed) excitation space has {len(ev)}: {got.round(5).tolist()}", labels, nontrivial)
         dmax = float(np.abs(got - ev[:k]).max())
         if dmax > bound and case["layout"] == "mixed" and exm == "cis" and evA[0] <= 1e-6:
             # recorded finding (root cause read in rcis_new.get_subspace_eig_any_batched, also recorded for C05): in a heterogeneous
@@ -184,6 +274,12 @@ class Eigenpairs(SubCheck):
             rest_ok = k > npos and float(np.abs(got[npos:k] - ev[npos:k]).max()) <= bound and float(np.abs(got[:npos]).max()) <= 1e-12
             if rest_ok:
                 return Outcome.fail("hetero_cis_nonpositive_root_replaced_by_padding_zero", f"returned {got.round(5).tolist()} vs dense {ev[:k].round(5).tolist()}", labels, nontrivial)
+        if dmax > bound and exm == "rpa" and window:
+            Af, Bf, _ = dense(r.mol, b, None)
+            full = np.sqrt(np.clip(np.sort(np.linalg.eigvals((Af - Bf) @ (Af + Bf)).real), 0, None))
+            if all(np.abs(full - g).min() <= bound for g in got) and not all(np.abs(ev - g).min() <= bound for g in got):
+                return Outcome.fail("rpa_ignores_orbital_window", f"RPA with orbital_window={tuple(window)} returns {got.round(5).tolist()}, the eigenvalues of the FULL space ({full[:k].round(5).tolist()}); the windowed "
+                                    f"problem has {ev[:k].round(5).tolist()}", labels, nontrivial)
         if dmax > bound:
             each_is_eigenvalue = all(np.abs(ev - g).min() <= bound for g in got)
             if each_is_eigenvalue:
@@ -191,13 +287,21 @@ class Eigenpairs(SubCheck):
                 missed = [float(v) for v in ev[: k + 4] if np.abs(got - v).min() > bound and v < got.max()]
                 if evA[0] <= 1e-6 and len(rows) > 1 and case["layout"] == "mixed":
                     return Outcome.inconclusive("recorded_c05_hetero_nonpositive_root", labels)
-                return Outcome.fail("davidson_skips_roots", f"{exm} n_states={n} ({case['mol']['tpl']}, {'symmetric' if case['mol']['amp'] == 0 else 'distorted'} geometry): returned {got.round(5).tolist()}; "
+                # recorded finding: roots ABOVE the lowest one are skipped when their irrep (or, at nearly symmetric geometries, their
+                # weakly coupled block) is absent from the initial guess; observed on the unchanged tree for single molecules at
+                # symmetric, linear and slightly distorted geometries alike (PCl3, NaH, P2, BeF2). The lowest root has always been found;
+                # a skipped LOWEST root is therefore outside the recorded finding.
+                # At exactly symmetric or linear geometries even the lowest root can be skipped (AlCl3 D3h, LiF): the finding's original
+                # witnesses. Outside the finding, and reported: the lowest root skipped at a generic non-linear geometry.
+                exact_sym = symmetric or M.is_linear(case["mol"]["tpl"])
+                bucket = "davidson_skips_roots" if (exact_sym or abs(got[0] - ev[0]) <= bound) else "lowest_root_skipped_at_generic_geometry"
+                return Outcome.fail(bucket, f"{exm} n_states={n} ({case['mol']['tpl']}, {'symmetric' if symmetric else 'generic'} geometry, member {b}): returned {got.round(5).tolist()}; "
                                     f"true eigenvalues below the largest returned one that are missing: {np.round(missed, 5).tolist()}", labels, nontrivial, skipped=len(missed))
             return Outcome.fail(f"returned_value_is_not_an_eigenvalue:{exm}", f"returned {got.round(6).tolist()} vs dense {ev[:k].round(6).tolist()} (max deviation {dmax:.3e} > {bound:.1e})", labels, nontrivial, dev=dmax)
         if ev[0] > 1e-6 and got.min() <= 0:
             return Outcome.fail("nonpositive_energy_for_stable_reference", f"lowest returned {got.min()!r}, dense lowest {ev[0]!r}", labels, nontrivial)
         info = {"dev": dmax}
-        if exm == "cis" and case["layout"] != "mixed":
+        if exm == "cis" and case["layout"] != "mixed" and not window:
             # (heterogeneous batches store amplitudes in a batch-padded layout that this harness does not decode; their energies
             # are compared above. A first version guessed the layout and reported non-orthonormal amplitudes -- harness error.)
             amps = tonp(r.mol.cis_amplitudes[b])[:k]
